@@ -405,6 +405,17 @@ class Interp:
         if isinstance(fn, functools.partial):
             return self.call(fn.func, (*fn.args, *args),
                              {**fn.keywords, **kwargs})
+        # instances of repository classes with a __call__ written in the repo
+        tp = type(fn)
+        if not isinstance(fn, type) and (tp.__module__ or "").startswith(
+                self.repo_prefixes):
+            try:
+                cf = inspect.getattr_static(tp, "__call__")
+            except AttributeError:
+                cf = None
+            if isinstance(cf, types.FunctionType) and (
+                    cf in self.contracts or self.is_repo_function(cf)):
+                return self.call(types.MethodType(cf, fn), args, kwargs)
         self._log("native", _qn(fn))
         return fn(*args, **kwargs)
 
